@@ -499,6 +499,7 @@ package tree
 //@ func btree.Put
 //@   props C03
 //@   splitfirst
+//@   budget 45
 //@   requires structOK(t, nil, nil)
 //@   requires C02: deadOK(t)
 //@   modifies t.size, t.gen, t.root, t.nodes, all(t.root.n), all(t.root.keys), all(t.root.values), all(t.root.children), all(t.root.parent), all(t.root.pidx), all(t.root.owner), all(t.root.height), t.val, t.locN, t.locI, all(t.root.sub)
